@@ -23,8 +23,11 @@ import traceback
 VERIF = os.path.dirname(os.path.dirname(os.path.abspath(__file__)))
 LEAN = os.path.join(VERIF, "lean")
 DRIVER = os.path.join(LEAN, ".lake", "build", "bin", "cpppo_model")
-REPLAYS = os.path.join(VERIF, "replays")
-EVIDENCE = os.path.join(VERIF, "evidence")
+# runs against a scratch copy of the code (CPPPO_SRC, used for seeded changes) must not overwrite the evidence of /repo
+OUT = os.environ.get("VERIF_OUT") or (os.path.join(os.environ["CPPPO_SRC"], "verif-out") if os.environ.get("CPPPO_SRC")
+                                      else VERIF)
+REPLAYS = os.path.join(OUT, "replays")
+EVIDENCE = os.path.join(OUT, "evidence")
 CORPUS = os.path.join(VERIF, "harness", "corpus")
 KNOWN = os.path.join(VERIF, "known_findings.json")
 ALLOWED_AXIOMS = {"propext", "Classical.choice", "Quot.sound"}
